@@ -1,9 +1,9 @@
 package main
 
 import (
-	"strings"
 	"fmt"
 	"math"
+	"strings"
 
 	tally "github.com/uber-go/tally/v4"
 	rt "github.com/uber-go/tally/v4/verifrt"
